@@ -10,7 +10,7 @@ storage server, C22); repair itself is download (C02) followed by `upload` with 
 `VCfg.asIs` is the verifier as it was before the fix, `VCfg.repaired` the verifier as it is in /repo now (fix fb3513d =
 fixes/C45-verify-block-root.diff: the block hash tree root is taken from the validated share hash leaf).
 
-As built: 26 theorems (one `_partial`) — `verified_good_implies_all_valid` (+ `verified_good_counterexample` for the old verifier),
+As built: 27 theorems (one `_partial`) — `verified_good_implies_all_valid` (+ `verified_good_counterexample` for the old verifier),
 `healthy_iff_N_good`, `recoverable_iff_k_good`, `corrupt_shares_listed`, `noverify_believes_servers`,
 `recoverable_unhealthy_repair_attempted`, `repair_uses_original_parameters`, `repair_regenerates_identical_shares`,
 `post_repair_healthy_implies_N_good`, `repair_never_alters_good_shares`, `repair_output_is_encoder_output`,
@@ -18,7 +18,8 @@ As built: 26 theorems (one `_partial`) — `verified_good_implies_all_valid` (+ 
 `repaired_share_block_accepted`, `repaired_share_block_fetch_chain`, `validation_stages_keep_trees_closed`,
 `anchored_repaired_share_delivers_block`, `fresh_repaired_share_delivers_block`, `tail_stages_deliver_block`,
 `repaired_share_passes_ct_stage_any`, `known_chain_repaired_share_delivers_block`,
-`validation_stages_keep_trees_sibclosed`, `repaired_share_block_fetch_chain_any`, `readable_from_repaired_shares_partial`. Further model parts: `checkServerShares` /
+`validation_stages_keep_trees_sibclosed`, `repaired_share_block_fetch_chain_any`,
+`share_tree_closed_on_every_reachable_node`, `readable_from_repaired_shares_partial`. Further model parts: `checkServerShares` /
 `checkNoVerify`, `repairDecision`, `repairParams`, `gatherRepairResults`, `corruptLocators`. Driver lean/Drv/C45.lean
 (`veup`, `fmt`, `fmtlists`, `noverify`, `verify`, `repairdecision`, `repairparams`, `postrepair`, `repair`) ties each
 of them to the code. Only partially proved (monitor end to end): that the file can be read from the repaired shares alone. -/
@@ -795,6 +796,26 @@ example :
     nd.known.isSome ∧ (neededHashes nd.shareTree (firstLeafNum 2 + 1)).isEmpty = true ∧
     nd.blockTree 1 2 = newTree SymH 2 ∧ (Base.Merkle.get nd.ctTree (firstLeafNum 2 + 1)).isSome = true ∧
     (satisfy ex2E Cfg.asIs (fun _ => 0) P.cap nd 1 1 (ex2Honest 1 1)).1 = .block (P.block 1 1) := by decide
+
+/-- **share_tree_closed_on_every_reachable_node**: the premises `Closed nd.shareTree` / `SibClosed nd.shareTree` of the
+    whole-pass theorems hold on every node a download can reach: start from a fresh node and run ANY sequence of
+    `_get_satisfaction` passes — any share numbers, segment numbers and server answers, honest or not. (The stage
+    invariants `validation_stages_keep_trees_closed` / `_sibclosed` lifted through `runStages` and over the history.) -/
+theorem share_tree_closed_on_every_reachable_node (E : Env H) (cfg : Cfg) (prm : Params) (ser : UEB H → Bytes)
+    (encode : Nat → Bytes → Nat → Bytes) (ct : Bytes) (sz : Sizes) (S : Setup E cfg prm ser encode ct sz)
+    (pick : List Nat → Nat) (cap : Cap H) (passes : List (Nat × Nat × View H)) :
+    Closed (passes.foldl (fun nd p => (satisfy E cfg pick cap nd p.1 p.2.1 p.2.2).2) (Node.init H cap)).shareTree ∧
+    SibClosed (passes.foldl (fun nd p => (satisfy E cfg pick cap nd p.1 p.2.1 p.2.2).2) (Node.init H cap)).shareTree := by
+  have hgen : ∀ (ps : List (Nat × Nat × View H)) (nd : Node H), Closed nd.shareTree ∧ SibClosed nd.shareTree →
+      Closed (ps.foldl (fun nd p => (satisfy E cfg pick cap nd p.1 p.2.1 p.2.2).2) nd).shareTree ∧
+      SibClosed (ps.foldl (fun nd p => (satisfy E cfg pick cap nd p.1 p.2.1 p.2.2).2) nd).shareTree := by
+    intro ps
+    induction ps with
+    | nil => intro nd h; exact h
+    | cons p rest ih =>
+      intro nd h
+      exact ih _ (satisfy_keeps_share_tree_closed S.strict pick cap nd p.1 p.2.1 p.2.2 h)
+  exact hgen passes _ ⟨newTree_closed _, newTree_sibClosed _⟩
 
 /-- **readable_from_repaired_shares_partial**.  Full statement (NOT proved): after a repair that reports success,
     every read that is offered any k distinct shares out of the old and the repaired ones ends `done` with the
